@@ -109,8 +109,13 @@ fn generate(seed: u64, tier: Tier, em: &mut Emitter) {
                       &["sweep", "empty_source"]);
         }
     }
+    // every combine kind (and fan-out) on the left and on the right side of a join: the parallel
+    // engine runs join sides through its own copy of the barrier arms (run_subplan_par)
+    for (src, steps, parts) in join_side_barrier_cases(&mut rng, tier != Tier::Quick) {
+        emit_prog(em, &src, &steps, Mode::Par(parts), true, &["sweep", "join_side_barrier"]);
+    }
     let mut rng = seed_mix(seed, 0xC05_0002);
-    let count = if tier == Tier::Quick { 1000 } else { 8000 };
+    let count = if tier == Tier::Quick { 850 } else { 7000 };
     let mut made = 0;
     while made < count {
         let n = gen_len(&mut rng);
